@@ -791,7 +791,7 @@ class C04(Check):
     prop = "C04"
     props_file = "Props/C04.v"
     models = ["Dtls"]
-    quick_cases = 10000
+    quick_cases = 8000
     thorough_cases = 200000
     case_timeout = 20.0
     level_note = (
